@@ -196,6 +196,20 @@ class Ctx:
         ):
             self._absorb(res)
 
+    def pmap_tasks(self, tasks) -> None:
+        """Like pmap for heterogeneous tasks [(func, arg), ...]: one pass over the pool, no
+        barrier between the phases of a check (stragglers of one phase overlap the next)."""
+        tasks = list(tasks)
+        if tasks:
+            r = self.seed % len(tasks)
+            tasks = tasks[r:] + tasks[:r]
+        if self.jobs <= 1 or len(tasks) <= 1:
+            for t in tasks:
+                self._absorb(_worker_call(t))
+            return
+        for res in self.pool().imap_unordered(_worker_call, tasks, 1):
+            self._absorb(res)
+
     def bfs(self, roots, expand, depth: int, chunk: int = 400, on_level=None) -> int:
         """Level-synchronous breadth-first search with global deduplication.
 
